@@ -29,7 +29,32 @@ ECC = "Crypto.PublicKey.ECC"
 PT = "Crypto.PublicKey._point"
 
 
-def eq_table(check, repo, modname, cls, mk, variants, label):
+_QPOINT_SRC = """
+class _QPoint(object):
+    def __eq__(self, o):
+        return self.curve == o.curve and self.x == o.x and self.y == o.y
+    def __ne__(self, o):
+        return not (self.curve == o.curve and self.x == o.x and self.y == o.y)
+"""
+_QPOINT = []
+
+
+def _qpoint_class():
+    if not _QPOINT:
+        tree = ast.parse(_QPOINT_SRC)
+        c = tree.body[0]
+        for node in ast.walk(tree):
+            for ch in ast.iter_child_nodes(node):
+                ch._parent = node
+        for f in c.body:
+            f._qualname = "_QPoint." + f.name
+        c._qualname = "_QPoint"
+        c._vmethods = dict((f.name, f) for f in c.body if isinstance(f, ast.FunctionDef))
+        _QPOINT.append(c)
+    return _QPOINT[0]
+
+
+def eq_table(check, repo, modname, cls, mk, variants, label, key=None):
     """variants: list of (label, self spec, other spec or raw value, expected bool)."""
     mod = repo.module(modname)
     fn = repo.func(mod, cls + ".__eq__")
@@ -56,7 +81,7 @@ def eq_table(check, repo, modname, cls, mk, variants, label):
         shown.append("%s -> %s" % (lab, got))
         if got is not want:
             wrong.append("%s: == gives %s, expected %s" % (lab, got, want))
-    check.ob("EQ", "EQ|%s.%s" % (modname.split(".")[-1], cls), not wrong, mod.path, fn.lineno,
+    check.ob("EQ", key or "EQ|%s.%s" % (modname.split(".")[-1], cls), not wrong, mod.path, fn.lineno,
              extracted=("; ".join(shown[:9]) if not wrong else "WRONG " + "; ".join(wrong[:4])),
              expected="== is True exactly for same type, same privacy and same "
                       "component values; never raises",
@@ -123,6 +148,21 @@ def run(check, ctx):
     v = [("other is %s" % l, ek(5), o, False) for l, o in foreign]
     v += [("private vs public", ek(5), ek(None), False), ("public vs private", ek(None), ek(5), False)]
     eq_table(check, repo, ECC, "EccKey", None, v, "ecc")
+    # ECC keys over a stand-in point that carries (curve, x, y) and compares all three, as the native comparison does
+    # (ec_ws_cmp refuses points of two contexts; its pair rows are below): equal scalars on two curves are two keys
+    qcls = _qpoint_class()
+    qp = lambda curve, x, y: OBJ((ECC, qcls), _havoc=False, curve=curve, x=x, y=y)
+    ekp = lambda d, pt: OBJ((ECC, "EccKey"), _havoc=False, _d=d, _seed=None, _point=pt, _curve=OBJ())
+    v = [("same private", ekp(3, qp("A", 10, 20)), ekp(3, qp("A", 10, 20)), True),
+         ("same public", ekp(None, qp("A", 10, 20)), ekp(None, qp("A", 10, 20)), True),
+         ("private, same scalar on another curve", ekp(3, qp("A", 10, 20)), ekp(3, qp("B", 11, 21)), False),
+         ("private, same scalar and coordinates on another curve", ekp(3, qp("A", 10, 20)), ekp(3, qp("B", 10, 20)), False),
+         ("private, other scalar", ekp(3, qp("A", 10, 20)), ekp(4, qp("A", 12, 22)), False),
+         ("public, x differs", ekp(None, qp("A", 10, 20)), ekp(None, qp("A", 11, 20)), False),
+         ("public, y differs (the negated point)", ekp(None, qp("A", 10, 20)), ekp(None, qp("A", 10, 3)), False),
+         ("public, same coordinates on another curve", ekp(None, qp("A", 10, 20)), ekp(None, qp("B", 10, 20)), False),
+         ("private vs public, same point", ekp(3, qp("A", 10, 20)), ekp(None, qp("A", 10, 20)), False)]
+    eq_table(check, repo, ECC, "EccKey", None, v, "ecc.points", key="EQ|ECC.EccKey|points")
     for cls in ("EccPoint", "EccXPoint"):
         pt = OBJ((PT, cls), _havoc=False, _point=OBJ(), _curve=OBJ())
         eq_table(check, repo, PT, cls, None, [("other is %s" % l, pt, o, False) for l, o in foreign], cls)
